@@ -90,6 +90,9 @@ impl Ctl {
         if p == Point::BeforeSend || p == Point::AfterSend || p == Point::JobStart {
             return; // the submitter is the controller itself: logged there
         }
+        if p == Point::BeforeLock {
+            worker_map().lock().unwrap().insert(std::thread::current().id(), id);
+        }
         self.jitter(id as u64 * 7 + p as u64);
         let mut st = self.st.lock().unwrap();
         st.log.push(Obs::Hook(p, id));
@@ -143,7 +146,16 @@ impl Ctl {
     }
 }
 
+/// Which worker the current thread is: learnt from the hook points (every worker passes BeforeLock with its id before
+/// it can run a task), so that it does not depend on how the pool names its threads.
+fn worker_map() -> &'static Mutex<HashMap<std::thread::ThreadId, usize>> {
+    static MAP: std::sync::OnceLock<Mutex<HashMap<std::thread::ThreadId, usize>>> = std::sync::OnceLock::new();
+    MAP.get_or_init(|| Mutex::new(HashMap::new()))
+}
 fn worker_of_current_thread() -> usize {
+    if let Some(w) = worker_map().lock().unwrap().get(&std::thread::current().id()) {
+        return *w;
+    }
     std::thread::current().name().and_then(|s| s.parse().ok()).unwrap_or(usize::MAX)
 }
 
